@@ -298,3 +298,21 @@ Fixpoint has_us (s : string) : bool :=
   | EmptyString => false
   | String c r => if Ascii.eqb c "_"%char then true else has_us r
   end.
+
+(* ------------------------------------------------------------------ *)
+(* Kinds of runs and the tolerance their tasks carry                   *)
+(* ------------------------------------------------------------------ *)
+(* _compute solves with solver_opts['tol'] = tol_forward, _bcompute and jvec
+   with tol_gradient: a property of the KIND of run, not of what ran before
+   and not of the hand-over mode. *)
+Inductive run_kind : Type := KForward | KBackprop | KJvec.
+
+Definition tol_of {A : Type} (tol_forward tol_gradient : A) (k : run_kind) : A :=
+  match k with KForward => tol_forward | KBackprop | KJvec => tol_gradient end.
+
+Definition kind_code (k : run_kind) : Z :=
+  match k with KForward => 0%Z | KBackprop => 1%Z | KJvec => 2%Z end.
+
+(* the tolerance seen by the tasks of the LAST run of a history of runs *)
+Definition last_run_tol {A : Type} (tf tg : A) (history : list run_kind) (k : run_kind) : A :=
+  tol_of tf tg (last (history ++ [k]) k).
